@@ -393,6 +393,15 @@ def c17(ctx):
         for _ in range(3):
             k = rng.randrange(max(1, len(t)))
             mutated.append(t[:k] + rng.choice(pool) + t[k + (rng.random() < 0.5):])
+    # the END of the text: no trailing line break, a stray last character, truncation at every one of the last positions
+    # (a front end that stops short of the end of input accepts these; one that does not, rejects them)
+    for t in [texts[0]] + texts[-n:][:6 if ctx.tier == 'quick' else 40]:
+        base = t.rstrip('\n')
+        for ch in pool:
+            mutated.append(base + ch)
+            mutated.append(base + '\n' + ch)
+        for k in range(1, 31 if len(base) > 40 else max(2, len(base) // 2)):
+            mutated.append(base[:-k])
     texts += mutated
     ref = T.run_pegx_parallel([{'id': 't%d' % i, 'text': t, 'opts': 'is', 'tree': True, 'compile': True, 'src': True} for i, t in enumerate(texts)], timeout=300)
     refsig = [sig(x) for x in ref]
